@@ -364,13 +364,16 @@ def declare_chains(ocp, chains, vec):
     return out
 
 
-def spline_program(meth, chains, N, g, vec, refine_con=1):
+def spline_program(meth, chains, N, g, vec, refine_con=1, inc=(True, True)):
     import rockit
     ocp = rockit.Ocp(t0=0.3, T=1.9)
     ch = declare_chains(ocp, chains, vec)
+    kw = {}
+    if not inc[0]: kw["include_first"] = False
+    if not inc[1]: kw["include_last"] = False
     for xs, u in ch:
         ocp.subject_to(-1.5 <= (u <= 1.5))
-        ocp.subject_to(xs[0] <= 3, refine=refine_con) if meth == "Spline" else ocp.subject_to(xs[0] <= 3)
+        ocp.subject_to(xs[0] <= 3, refine=refine_con, **kw) if meth == "Spline" else ocp.subject_to(xs[0] <= 3, **kw)
         ocp.subject_to(ocp.at_t0(xs[0]) == 0.1)
     ocp.add_objective(sum(ocp.at_tf(ca_sumsqr(xs[0] - 1)) for xs, u in ch) + sum(ocp.sum(ca_sumsqr(u)) for xs, u in ch))
     ocp.solver("ipopt", {"ipopt.print_level": 0, "print_time": False, "ipopt.sb": "yes"})
@@ -382,6 +385,34 @@ def spline_program(meth, chains, N, g, vec, refine_con=1):
 def ca_sumsqr(e):
     import casadi as ca
     return ca.sumsqr(e)
+
+
+def spline_path_rows(chains, N, g, vec, r, inc):
+    """SplineMethod NLP of a chain program with x<=3 declared with refine=r and include_first/include_last = inc:
+    returns (#kept instances missing from the NLP, #kept instances, #excluded end-point instances present in the NLP)"""
+    import casadi as ca
+    nn = 2 if vec else 1
+    ocp2, ch2 = spline_program("Spline", chains, N, g, vec, refine_con=r, inc=inc)
+    nlp2 = NL.Nlp(ocp2)
+    pts = [NL.generic(nlp2.nx, q, 0, lo=-0.7, hi=1.2) for q in range(3)]
+    f, rows = NL.canon_rows(nlp2, pts)
+    refs = []; dropped = []
+    for xs, u in ch2:
+        _, xv = ocp2.sample(xs[0], grid="control", refine=r)
+        Fx = ca.Function("f", [nlp2.x, nlp2.p], [xv])
+        vals = [np.atleast_2d(np.array(Fx(p_, nlp2.p0))) for p_ in pts]
+        vals = [v_.reshape(nn, -1, order="F") if v_.shape[0] != nn else v_ for v_ in vals]
+        npt = vals[0].shape[1]
+        for i in range(npt):
+            keep = not ((i == 0 and not inc[0]) or (i == npt - 1 and not inc[1]))
+            for e in range(nn):
+                (refs if keep else dropped).append(dict(kind="ineq", fp=np.array([3 - v_[e, i] for v_ in vals]), origin="path:%d" % i))
+    missing, extra = NL.match_rows(rows, refs)
+    n_extra = 0
+    if dropped:
+        miss_d, _ = NL.match_rows(extra, dropped)
+        n_extra = len(dropped) - len(miss_d)
+    return len(missing), len(refs), n_extra
 
 
 def run_spline(case):
@@ -458,23 +489,10 @@ def run_spline(case):
                     break
         # path constraints at every (refined) grid point
         for r in (1, 2, 3):
-            ocp2, ch2 = spline_program("Spline", chains, N, g, vec, refine_con=r)
-            nlp2 = NL.Nlp(ocp2)
-            pts = [NL.generic(nlp2.nx, q, 0, lo=-0.7, hi=1.2) for q in range(3)]
-            f, rows = NL.canon_rows(nlp2, pts)
-            refs = []
-            for xs, u in ch2:
-                _, xv = ocp2.sample(xs[0], grid="control", refine=r)
-                Fx = ca.Function("f", [nlp2.x, nlp2.p], [xv])
-                vals = [np.atleast_2d(np.array(Fx(p_, nlp2.p0))) for p_ in pts]
-                vals = [v_.reshape(nn, -1, order="F") if v_.shape[0] != nn else v_ for v_ in vals]
-                for i in range(vals[0].shape[1]):
-                    for e in range(nn):
-                        refs.append(dict(kind="ineq", fp=np.array([3 - v_[e, i] for v_ in vals]), origin="path:%d" % i))
-            missing, extra = NL.match_rows(rows, refs)
-            evals += len(refs)
-            if missing:
-                vios.append(dict(sig="missing:spline:path", tags=tags + ["refine=%d" % r], detail="%d of %d instances of x<=3 on the refined grid (refine=%d) are not in the NLP" % (len(missing), len(refs), r)))
+            n_missing, n_refs, n_extra = spline_path_rows(chains, N, g, vec, r, (True, True))
+            evals += n_refs
+            if n_missing:
+                vios.append(dict(sig="missing:spline:path", tags=tags + ["refine=%d" % r], detail="%d of %d instances of x<=3 on the refined grid (refine=%d) are not in the NLP" % (n_missing, n_refs, r)))
                 break
         # agreement with MultipleShooting on what both can represent: the spline trajectory closes MS's gaps (RK4 is
         # exact for chains up to length 4) and both objectives agree there
